@@ -620,3 +620,10 @@ def check_C04(run):
 
 
 CHECKS.update({"C01": check_C01, "C02": check_C02, "C04": check_C04, "C08": check_C08})
+
+import props_search  # noqa: E402
+CHECKS.update(props_search.CHECKS)
+import props_io  # noqa: E402
+CHECKS.update(props_io.CHECKS)
+import props_proc  # noqa: E402
+CHECKS.update(props_proc.CHECKS)
